@@ -71,6 +71,18 @@ def _isNonBMP(s):
     return False
 
 
+def _cffSafeString(s):
+    """CFF strings are stored as Latin-1. Keep text that can be encoded as is,
+    otherwise reduce it to ASCII like the other PostScript strings."""
+    if s is None:
+        return s
+    try:
+        s.encode("latin-1")
+    except UnicodeEncodeError:
+        return normalizeStringForPostscript(s)
+    return s
+
+
 def _getVerticalOrigin(font, glyph):
     if hasattr(glyph, "verticalOrigin") and glyph.verticalOrigin is not None:
         verticalOrigin = glyph.verticalOrigin
@@ -1536,11 +1548,15 @@ class OutlineOTFCompiler(BaseOutlineCompiler):
         if copyright is None:
             copyright = ""
         topDict.Copyright = copyright
-        topDict.FullName = getAttrWithFallback(info, "postscriptFullName")
-        topDict.FamilyName = getAttrWithFallback(
-            info, "openTypeNamePreferredFamilyName"
+        topDict.FullName = _cffSafeString(
+            getAttrWithFallback(info, "postscriptFullName")
         )
-        topDict.Weight = getAttrWithFallback(info, "postscriptWeightName")
+        topDict.FamilyName = _cffSafeString(
+            getAttrWithFallback(info, "openTypeNamePreferredFamilyName")
+        )
+        topDict.Weight = _cffSafeString(
+            getAttrWithFallback(info, "postscriptWeightName")
+        )
         # populate various numbers
         topDict.isFixedPitch = int(getAttrWithFallback(info, "postscriptIsFixedPitch"))
         topDict.ItalicAngle = float(getAttrWithFallback(info, "italicAngle"))
